@@ -8,7 +8,7 @@ ORACLES = ('C01',)
 RULE = ('every ruleset of the finite families in coverage.bounds is run to exhaustion through the real '
         'PcfgQueue; a state is (emitted multiset, heap content) after a pop, a transition is one next(); '
         'non-trivial = ruleset with two pre-terminals of exactly equal probability or a repeated variable type; '
-        'on-disk layer: rulesets written to disk, loaded by the real loader under every flag combination')
+        'on-disk layer: rulesets written to disk, loaded by the real loader under every flag combination; there the terminals of every emitted group are compared with the ruleset as well (the probability attached to every guess)')
 ASSUMPTIONS = [
     'in-memory grammars are deep copies of a PcfgGrammar really constructed from a minimal on-disk ruleset, with .grammar/.base replaced: they behave like loaded ones for PcfgQueue (the on-disk layer goes through the real loader)',
     'float slack for "equals the product": (2n+2) ulp relative + n denormal steps (DESIGN 4.3)',
